@@ -11,22 +11,28 @@ import (
 	"verifh/hx"
 )
 
-// Model.NEST_FUEL = 8: rule invocations at nesting depth 0..7 are followed by the model.
-const maxDepth = 7
+// Model.NEST_FUEL = 8: rule invocations at nesting depth 0..7 are followed by the model;
+// Model.TURN_FUEL = 400 scheduler turns, Model.STEP_FUEL = 2000 steps per turn.
+const (
+	maxDepth   = 7
+	maxTurns   = 300
+	maxInvokes = 200 // rule invocations per turn
+)
 
 // tctx is the context of one goroutine running code under test.  Only one such goroutine runs
 // at a time (driver.curT names it): the main driver service outside OCalls, inside an OCalls
 // the worker that holds the scheduler's token.
 type tctx struct {
-	evs    *[]any // sends / callbacks of the app-level call being executed (nil: none)
-	rec    bool   // record what rule invocations see
-	seen   []any
-	depth  int  // nesting depth of the rule invocation that is running
-	sched  bool // AYield parks the goroutine and hands the token back
-	resume chan struct{}
-	parked chan bool // true: the call returned
-	herr   any       // harness-internal inconsistency raised on this goroutine
-	res    any
+	evs     *[]any // sends / callbacks of the app-level call being executed (nil: none)
+	rec     bool   // record what rule invocations see
+	seen    []any
+	depth   int  // nesting depth of the rule invocation that is running
+	sched   bool // AYield parks the goroutine and hands the token back
+	resume  chan struct{}
+	parked  chan bool // true: the call returned
+	herr    any       // harness-internal inconsistency raised on this goroutine
+	res     any
+	invoked int // rule invocations since the goroutine was last given the token
 }
 
 func (t *tctx) see(e any) {
@@ -69,6 +75,10 @@ func optZ(v interface{}) any {
 func mkFn(s hx.T) route.RouteFunc {
 	return func(ty string, p route.IRouteParam) string {
 		t := drv.curT
+		t.invoked++
+		if t.invoked > maxInvokes {
+			panic("c07: scripted route functions run longer than the model follows")
+		}
 		depth := int64(t.depth)
 		t.see(hx.C("VKind", depth, strTok(ty), kindOf(p)))
 		return runScript(t, depth, s, ty, p)
@@ -125,6 +135,8 @@ func runScript(t *tctx, depth int64, s hx.T, ty string, p route.IRouteParam) str
 			case "AGet":
 				v := p.Get(keyStr(a.Int(0)), nil) // p == nil: a genuine nil-interface panic
 				t.see(hx.C("VGet", depth, a.Int(0), optZ(v)))
+			case "AReg":
+				register(a.Int(0), hx.AsTerm(a.Args[1]))
 			default:
 				panic("c07: unknown act " + a.Name)
 			}
@@ -134,17 +146,33 @@ func runScript(t *tctx, depth int64, s hx.T, ty string, p route.IRouteParam) str
 	panic("c07: unknown script " + s.Name)
 }
 
+// register calls RouteService.Register(ty, f) with f built from an option-of-script term
+func register(ty int64, f hx.T) {
+	if f.Name == "None" {
+		route.GetRouteService().Register(tokStr(ty), nil)
+	} else {
+		route.GetRouteService().Register(tokStr(ty), mkFn(f.Term(0)))
+	}
+}
+
 var callOp = map[string]string{
 	"CRoute": "ORoute", "CRoutePID": "ORoutePID", "CRequest": "ORequest", "CNotify": "ONotify",
 }
 
 // calls runs an OCalls: call i is made inside worker service i's goroutine.  The scheduler
 // (this goroutine: the main driver service's) lets exactly one worker run at a time, from one
-// scheduling point to the next, in the order the op's schedule says and round-robin after it.
+// scheduling point to the next, in the order the op's schedule says (SRun k: worker k mod n,
+// skipped when its call has returned) and round-robin after it; an SReg entry is a Register
+// made by yet another goroutine at that point.  Schedule entries are consumed while a call is
+// in flight.  Model.sim is the same scheduler.
+//
+// A worker that neither returns nor reaches a scheduling point within the watchdog is stuck
+// inside the code under test: its call is observed as BHang, the history ends after this op
+// and the driver is rebuilt.
 func (c *cx) calls(o hx.T) any {
 	d := c.d
 	cs := hx.Terms(o.Args[0])
-	sched := o.Ints(1)
+	sched := hx.Terms(o.Args[1])
 	n := len(cs)
 	if n > nWorkers {
 		panic(fmt.Sprintf("c07: OCalls with %d calls, %d workers", n, nWorkers))
@@ -176,23 +204,54 @@ func (c *cx) calls(o hx.T) any {
 	}
 	defer func() { d.curT = d.mainT }()
 	done := make([]bool, n)
+	hung := make([]bool, n)
 	started := make([]bool, n)
-	live, si, rr := n, 0, 0
+	var pending []chan struct{} // Register calls by other goroutines that have not returned yet
+	live, si, rr, turns := n, 0, 0, 0
 	for live > 0 {
+		c.run.alive()
 		id := -1
-		for id < 0 {
-			if si < len(sched) {
-				k := int(((sched[si] % int64(n)) + int64(n)) % int64(n))
-				si++
-				if !done[k] {
-					id = k
+		if si < len(sched) {
+			e := sched[si]
+			si++
+			switch e.Name {
+			case "SReg":
+				c.st.tags["calls-register-in-flight"] = true
+				ch := make(chan struct{})
+				ty, f := e.Int(0), hx.AsTerm(e.Args[1])
+				go func() {
+					register(ty, f)
+					close(ch)
+				}()
+				select {
+				case <-ch:
+				case <-time.After(watchdog() / 3):
+					// blocked (it is waiting for a rule that is running): it stays pending,
+					// as it would on its own goroutine
+					pending = append(pending, ch)
+					c.st.tags["calls-register-blocked"] = true
 				}
-			} else {
-				if !done[rr%n] {
-					id = rr % n
+				continue
+			case "SRun":
+				k := int(((e.Int(0) % int64(n)) + int64(n)) % int64(n))
+				if done[k] {
+					continue
 				}
-				rr++
+				id = k
+			default:
+				panic("c07: unknown schedule entry " + e.Name)
 			}
+		} else {
+			k := rr % n
+			rr++
+			if done[k] {
+				continue
+			}
+			id = k
+		}
+		turns++
+		if turns > maxTurns {
+			panic("c07: an OCalls takes more scheduler turns than the model follows")
 		}
 		for j := range ts {
 			if j != id && started[j] && !done[j] {
@@ -201,6 +260,7 @@ func (c *cx) calls(o hx.T) any {
 		}
 		started[id] = true
 		t := ts[id]
+		t.invoked = 0
 		d.curT = t
 		t.resume <- struct{}{}
 		select {
@@ -211,13 +271,29 @@ func (c *cx) calls(o hx.T) any {
 			} else {
 				c.st.tags["calls-yield"] = true
 			}
-		case <-time.After(20 * time.Second):
-			panic(fmt.Sprintf("c07: call %d of an OCalls neither returned nor reached a scheduling point", id))
+		case <-time.After(watchdog()):
+			// stuck inside the code under test
+			hung[id], done[id] = true, true
+			live--
+			c.run.hung = true
+			hangsSeen++
 		}
 		d.curT = d.mainT
 	}
+	for _, ch := range pending {
+		select {
+		case <-ch:
+		case <-time.After(watchdog() / 3):
+			c.run.hung = true // a Register that never returns although no call is in flight
+		}
+	}
 	out := make([]any, n)
 	for i, t := range ts {
+		if hung[i] {
+			// t belongs to a goroutine that may still be running: do not read it
+			out[i] = hx.Pair{A: "BHang", B: []any{}}
+			continue
+		}
 		if t.herr != nil {
 			if s, ok := t.herr.(string); ok && strings.HasPrefix(s, "c07:") {
 				panic(s)
